@@ -5,6 +5,7 @@ CONSTANTS
   Calls <- Calls_2x21
   ChanCap = 1
   MaxTasks = 3
+  Cancellable = {}
   RegisterFirst = FALSE
 INVARIANTS
   TypeOK
